@@ -67,7 +67,8 @@ template <class To, class From> To saturate_cast(From x) { return etl::saturate_
 template <class T> T midpoint(T x, T y) { return etl::midpoint(x, y); }
 template <class M, class N> auto gcd(M m, N n) { return etl::gcd(m, n); }
 template <class M, class N> auto lcm(M m, N n) { return etl::lcm(m, n); }
-template <class T> T abs(T x) { return etl::abs(x); }
+template <class T> T abs(T x) { return etl::abs(x); }        // overload resolution: <cmath>/<cstdlib> abs(int|long|long long) or the template
+template <class T> T abs_t(T x) { return etl::abs<T>(x); }   // always the template of etl/_numeric/abs.hpp
 template <class T> void idiv(T x, T y, T& q, T& r)
 {
     auto res = etl::idiv(x, y);
@@ -123,6 +124,7 @@ template <class T> T midpoint(T x, T y) { return std::midpoint(x, y); }
 template <class M, class N> auto gcd(M m, N n) { return std::gcd(m, n); }
 template <class M, class N> auto lcm(M m, N n) { return std::lcm(m, n); }
 template <class T> T abs(T x) { return T(x < 0 ? -i128(x) : i128(x)); }
+template <class T> T abs_t(T x) { return abs<T>(x); }
 template <class T> void idiv(T x, T y, T& q, T& r)
 {
     if constexpr (std::is_same_v<T, int> or std::is_same_v<T, long> or std::is_same_v<T, long long>) {
@@ -326,6 +328,14 @@ template <class F> bool guarded(F&& f)
     ++g_traps;
     return false;
 }
+// the same with a watchdog: a call that does not return within a few seconds is recorded as a trap as well
+template <class F> bool guarded_timed(F&& f)
+{
+    alarm(8);
+    bool const ok = guarded(f);
+    alarm(0);
+    return ok;
+}
 
 // ---- groups of calls ----------------------------------------------------------------------------------
 template <class T> bool ceil_callable(T x) { return x <= T(T(1) << (W<T> - 1)); }
@@ -482,8 +492,14 @@ template <class T> void ev_ilog2(T x)
 
 template <class T> void ev_abs(T x)
 {
-    Ev e("abs");
-    e.type(Tag<T>{}).val("x", x).val("ret", impl::abs(x)).str("inst", tname<T>()).end();
+    {
+        Ev e("abs");
+        e.type(Tag<T>{}).val("x", x).val("ret", impl::abs(x)).str("inst", tname<T>()).end();
+    }
+    {
+        Ev e("abs");
+        e.type(Tag<T>{}).val("x", x).val("ret", impl::abs_t(x)).str("form", "template").str("inst", tname<T>()).end();
+    }
 }
 
 template <class To, class From> void put_cast(Ev& e, From x, bool first)
@@ -529,12 +545,21 @@ template <class T> void ev_bin1(char const* op, T x, T y, T r, bool trapped = fa
     e.str("inst", tname<T>()).end();
 }
 
-template <class T> void ev_ipow(T x, T y) { ev_bin1<T>("ipow", x, y, impl::ipow(x, y)); }
+template <class T> void ev_ipow(T x, T y)
+{
+    T r{};
+    bool ok = guarded_timed([&] { r = impl::ipow(x, y); });
+    ev_bin1<T>("ipow", x, y, r, !ok);
+}
 template <auto B> void ev_ipow_t(decltype(B) y)
 {
     using T = decltype(B);
     Ev e("ipow");
-    e.type(Tag<T>{}).val("x", T(B)).val("y", y).val("ret", T(impl::ipow_t<B>(y))).str("form", "tpl").str("inst", tname<T>()).end();
+    T r{};
+    bool ok = guarded_timed([&] { r = T(impl::ipow_t<B>(y)); });
+    e.type(Tag<T>{}).val("x", T(B)).val("y", y).val("ret", ok ? r : T(0));
+    if (!ok) { e.flag("trap", true); }
+    e.str("form", "tpl").str("inst", tname<T>()).end();
 }
 template <class T, class U> void put_cmp(T t, U u)
 {
@@ -596,7 +621,12 @@ template <class T> void binary_all(T x, T y, bool with_ipow)
     }
     e.key("cmp");
     put_cmp(x, y);
-    if (with_ipow) { e.val("ipow", impl::ipow(x, y)); }
+    if (with_ipow) {
+        T r{};
+        bool ok = guarded_timed([&] { r = impl::ipow(x, y); });
+        e.val("ipow", ok ? r : T(0));
+        if (!ok) { trap("ipow"); }
+    }
     if (!traps.empty()) {
         e.key("traps");
         g_out += '[';
@@ -1092,11 +1122,16 @@ void* work(void* p)
     ss.ss_sp   = altstack;
     ss.ss_size = sizeof(altstack);
     sigaltstack(&ss, nullptr);
+    sigset_t alrm;
+    sigemptyset(&alrm);
+    sigaddset(&alrm, SIGALRM);
+    pthread_sigmask(SIG_UNBLOCK, &alrm, nullptr);
     struct sigaction sa {};
     sa.sa_handler = on_trap;
     sa.sa_flags   = SA_NODEFER | SA_ONSTACK;
     sigaction(SIGFPE, &sa, nullptr);
     sigaction(SIGSEGV, &sa, nullptr);
+    sigaction(SIGALRM, &sa, nullptr);
     for (int s : {SIGABRT, SIGILL, SIGBUS}) { std::signal(s, on_fatal); }
 
     auto& a                = *static_cast<Args*>(p);
@@ -1127,6 +1162,11 @@ void* work(void* p)
 int main(int argc, char** argv)
 {
     Args a {argc, argv, 2};
+    // SIGALRM (watchdog) must reach the worker thread, whose jump buffer the handler uses: block it here
+    sigset_t alrm;
+    sigemptyset(&alrm);
+    sigaddset(&alrm, SIGALRM);
+    pthread_sigmask(SIG_BLOCK, &alrm, nullptr);
     pthread_attr_t at;
     pthread_attr_init(&at);
     pthread_attr_setstacksize(&at, 1 << 18);
